@@ -19,7 +19,11 @@ def opMoments (j : Json) : D Json := do
   let budget := match (jFieldD j "budget" (Json.num 4000)).getNat? with
     | .ok b => b
     | .error _ => 4000
-  let mut d := d₀.mergeFast
+  -- "merge": false runs the un-merged semantics the theorems are stated for (small n only)
+  let doMerge := match j.getObjVal? "merge" with
+    | .ok (Json.bool b) => b
+    | _ => true
+  let mut d := if doMerge then d₀.mergeFast else d₀
   let mut rows : List (List Rat) := []
   let mut sizes : List Nat := []
   let given : Option Cond ← match j.getObjVal? "given" with
@@ -39,7 +43,8 @@ def opMoments (j : Json) : D Json := do
       if d.length > budget then break
       -- stop when the values (polynomials over draw atoms) get large
       if d.any (fun wp => wp.2.vals.any (fun xv => xv.2.length > 400)) then break
-      d := (← d.bindM (iter P)).mergeFast
+      let d' ← d.bindM (iter P)
+      d := if doMerge then d'.mergeFast else d'
   -- transpose: per monomial the list over n
   let perMono := (List.range monos.length).map (fun i => rows.map (fun r => r.getD i 0))
   pure (okJson [("values", Json.arr (perMono.map (fun l => Json.arr (l.map jsonRat).toArray)).toArray),
